@@ -690,7 +690,7 @@ def run_unit(ctx: Ctx, cases, terms):
         ctx.count(f"unit-obs:{obs}")
         cases.append(case)
         terms.append(unit_term(case, obs))
-    n = 1500 if quick else 30000
+    n = 1500 if quick else 20000
     for kind, case in unit_random(ctx, n):
         case = dict(case, kind="unit")
         obs = run_validate(case["t"], case["a"], case["la"])
@@ -700,7 +700,7 @@ def run_unit(ctx: Ctx, cases, terms):
         cases.append(case)
         terms.append(unit_term(case, obs))
     # deviations: every specified path x every kind
-    ntargets = 60 if quick else 1200
+    ntargets = 60 if quick else 500
     for i in range(ntargets):
         rng = ctx.rng
         t = gen_good(rng, rng.choice([1, 2, 2, 3, 4]), nulls=(i % 3 == 0))
@@ -1023,8 +1023,8 @@ def created_object(ctx, body, owned):
 def run_flow(ctx: Ctx, cases, terms):
     rng = ctx.rng
     quick = ctx.quick()
-    nbodies = 10 if quick else 120
-    per_body = 14 if quick else 60
+    nbodies = 10 if quick else 80
+    per_body = 14 if quick else 50
     for bi in range(nbodies):
         body = flow_body(rng, rng.choice([1, 2, 2, 3]))
         owned = rng.random() < 0.7
